@@ -38,7 +38,7 @@ CHECKS.update({
     ),
     "C03": dict(
         text="Lean 4 theorems on the materialisation model: which transformation each mode requests per operand (static range / dynamic range / weight only), non-float operands always receive NO_QUANTIZE (nonfloat_never_quantized), tensor type produced per bit width; combined with the wiring theorems of C01/C02. The materialisation and the whole pipeline are compared bit-exactly with the code; an independent per-operand dtype oracle runs on every generated case.",
-        note="proved for the whole performer (QProps/C03c: addQuant_wired / addDequant_wired / quantTensor_typed): for every instruction list that is consistent, chain-free and names each tensor in one entry, after transformGraph every listed consumer of an ADD_QUANTIZE instruction reads, in every slot where the original operator read the tensor, a tensor that stands for it (Skeleton.root), has the type dtypeOf(p) and carries p; ADD_DEQUANTIZE consumers read float32; the retyped tensor itself has the requested type; each extra hypothesis is shown necessary by a kernel-checked counterexample. Per-step typing is QProps/C03b. What remains oracle-level is the link from the recipe's mode to the instruction list, i.e. the composition with materialisation (xfs_* theorems + GenInsts) into one statement over quantize()",
+        note="END TO END (QProps/C03d): for every original operator of a successful quantizePure under NF, by resolved mode: no-quantize => results/operands untouched or float32 through exactly one inserted DEQUANTIZE, constants with unchanged buffers (noquant_op_untouched); static range => integer tensors of the activation width with parameters, integer constants, 32/64-bit bias (srq_op_typed, srq_bias_typed); dynamic range / weight only / float16 (drq_op_typed, wo_op_typed, f16_op_typed); every untagged operator is a well-typed QUANTIZE/DEQUANTIZE (inserted_ops_typed). Earlier layers: per-step (C03b) and whole-performer (C03c) typing. Byte identity of untouched constants is 'same abstract buffer content' in the model; bytes are compared by execution",
 
         design="§6 C03",
     ),
@@ -49,12 +49,12 @@ CHECKS.update({
     ),
     "C05": dict(
         text="Lean 4 theorems: int4 nibble packing round trip for every list of codes incl. odd lengths (unpack_pack), packed length, little-endian round trip, and the value laws (C17.dq_q_ideal, C17.dq_q_rounded: dequantized value within half a step + explicit float32 slack; C17.cover_ideal: a constant quantized with its own min/max is in range). Independent decoder on every rewritten constant of every generated case.",
-        note="little-endian round trip proved for every whole-byte width (QProps/C05b: decode_encode, decode_encode_wrap, decodeAll_encodeAll) and the float16 bit pattern decodes to the stored value (f16Val_f16Bits); the decoder used by the oracle is an independent Python implementation",
+        note="END TO END (QProps/C05c): every rewritten constant of a successful quantizePure stems from an original constant through one of four sources (stored_source); its stored bytes have the length implied by dtype and element count (stored_length), decode to exactly the codes and dequantize to within scale*(1/2 + 2^(bits+4)*2^-24) of the original, symmetric and asymmetric, clipped elements included (stored_decodes_all, new scalar law decode_minmax); bias = round(bias/scale) inside the symmetric range with the sign kept on saturation (stored_bias); float16 = round-to-nearest binary16 (stored_f16). The flatbuffer writer is external; the length clause for parameters LENT by another tensor needs a shape condition that calibrate() always delivers (closed witness NeedsFits.length_needs_fits with hand-made statistics)",
         design="§6 C05",
     ),
     "C08": dict(
         text="Lean 4 theorems: (1) over regenerated tables: the model's materialisation dispatch covers every registered (algorithm, op, function); shipped recipes load, are single '.*'/'*' rules and carry policy-accepted configs; (2) TOTALITY of the graph stage (QProps/C08b): for every well-formed model and every request set of the closed shape whose parameters are in the table and which does not mix 'unquantized' with 'quantize in place' on one tensor, instruction generation + performer cannot raise (modify_total, performer_total) and return a well-formed graph (modify_total_wf); each added hypothesis is shown necessary by a kernel-checked counterexample. Rejection-freedom of the whole pipeline is executed: all shipped recipes x generated normal-form models (incl. reshape-to-scalar, bool outputs, unnamed single signatures).",
-        note="raise sites inside materialisation (non-finite statistics, missing statistics — excluded by C10.stats_complete after calibration —, buffer-sharing refusals) are not covered by a totality theorem: that part is exploration-level; D28 (empty constants) was found and fixed this way",
+        note="PARTIAL at the numeric sites only. C08c: complete inventory of the raise sites of the materialisation stage (generate_error_sites); under Hyp (normal form, complete statistics as delivered by calibrate(), no skip_checks, converter operand shapes) and Unshared every STRUCTURAL site is impossible, so quantizePure returns a well-formed model or stops at a numeric site (zpScale / uniformQuantize / quantizeBias / float16 cast overflowing on the data), which is a real failure (quantize_total_partial, numeric_site_fails); each hypothesis shown necessary by a closed run; for every shipped recipe and operator name resolution selects no-quantize or a registered legal function (shipped_resolution, shipped_coverage). Graph stage total (C08b). Not proved: success of the numeric primitives on finite ordered data (NumericOK is a hypothesis); covered by execution over all shipped recipes x generated models",
         design="§6 C08",
     ),
     "C09": dict(
